@@ -166,8 +166,8 @@ func (f *OrefaFile) Read(b []byte) (n int, err error) {
 		return 0, fs.ErrInvalid
 	}
 
-	f.mu.RLock()
-	defer f.mu.RUnlock()
+	f.mu.Lock()
+	defer f.mu.Unlock()
 
 	if f.name == "" {
 		return 0, fs.ErrInvalid
@@ -278,8 +278,8 @@ func (f *OrefaFile) ReadDir(n int) ([]fs.DirEntry, error) {
 		return nil, fs.ErrInvalid
 	}
 
-	f.mu.RLock()
-	defer f.mu.RUnlock()
+	f.mu.Lock()
+	defer f.mu.Unlock()
 
 	if f.name == "" {
 		return nil, fs.ErrInvalid
@@ -355,8 +355,8 @@ func (f *OrefaFile) Readdirnames(n int) (names []string, err error) {
 		return nil, fs.ErrInvalid
 	}
 
-	f.mu.RLock()
-	defer f.mu.RUnlock()
+	f.mu.Lock()
+	defer f.mu.Unlock()
 
 	if f.name == "" {
 		return nil, fs.ErrInvalid
@@ -599,8 +599,8 @@ func (f *OrefaFile) Write(b []byte) (n int, err error) {
 		return 0, fs.ErrInvalid
 	}
 
-	f.mu.RLock()
-	defer f.mu.RUnlock()
+	f.mu.Lock()
+	defer f.mu.Unlock()
 
 	if f.name == "" {
 		return 0, fs.ErrInvalid
